@@ -1,7 +1,8 @@
 /-
   C04 — size-aware models, second continuation: mpz/setbit.c, clrbit.c, combit.c (in place on one variable through the
   pointer `dp` taken on entry; negative operands: borrow / carry past the top limb, bit index beyond the size, the
-  reallocations to `limb_index + 1` and `dsize + 1`), … .  Theorems: MpirProofs/Props/C04_allocsafe3.lean.
+  reallocations to `limb_index + 1` and `dsize + 1`), mpz/cfdiv_q_2exp.c (the `+ 1` limb for the rounding `mpn_add_1`).
+  Theorems: MpirProofs/Props/C04_allocsafe3.lean (setbit, clrbit, combit; cfdiv_q_2exp is tied by the ops only).
   Core Lean only.  On the memory model of Mpir/Model/AllocSafe.lean; statement by statement after the C, file:line cited.
   The list functions applied to the limbs are those of the C10 models (Mpir/Model/Bits.lean).
 -/
